@@ -242,3 +242,54 @@ func VerifC16_DispatchTwoMethods() {
 		verifAssert("methods:other-method-not-dispatched", hit.route == -1 && w.status == 405)
 	}
 }
+
+// a middleware registered on the muxer reads the pattern and the variables
+// before the request is routed; the handler reads them again afterwards
+func VerifC16_Middleware() {
+	patterns := []string{"/p/{x}", "/p/{*x}", "/p/{x}/f/{*y}"}
+	pi := nondetChoice("pattern", len(patterns))
+	v := nondetString("v", 1)
+	verifAssume(v != "")
+	target := "/p/" + url.PathEscape(v)
+	if pi == 2 {
+		target += "/f/t"
+	}
+	m := NewMuxer()
+	var mwVars, hVars map[string]string
+	var mwPattern, hPattern string
+	mwRan, hRan := false, false
+	m.Use(func(next http.Handler) http.Handler {
+		return http.HandlerFunc(func(w http.ResponseWriter, r *http.Request) {
+			mwRan = true
+			if nondetBool("middleware-reads-pattern-first") {
+				mwPattern, mwVars = m.ResolvePattern(r), m.Vars(r)
+			} else {
+				mwVars, mwPattern = m.Vars(r), m.ResolvePattern(r)
+			}
+			next.ServeHTTP(w, r)
+		})
+	})
+	m.Handle("GET", patterns[pi], func(w http.ResponseWriter, r *http.Request) {
+		hRan = true
+		hVars, hPattern = m.Vars(r), m.ResolvePattern(r)
+	})
+	u, err := url.ParseRequestURI(target)
+	verifAssert("middleware:target-parses", err == nil)
+	if err != nil {
+		return
+	}
+	m.ServeHTTP(&verifRW{h: http.Header{}}, &http.Request{Method: "GET", URL: u, Header: http.Header{}, RequestURI: target})
+	verifAssert("middleware:both-ran", mwRan && hRan)
+	if !mwRan || !hRan {
+		return
+	}
+	verifAssert("middleware:handler-pattern-is-the-registered-one", hPattern == patterns[pi])
+	verifCheckCapture("middleware:handler:", hVars, "x", v)
+	if pi == 2 {
+		verifAssert("middleware:handler-catch-all", hVars["y"] == "t" && len(hVars) == 2)
+	} else {
+		verifAssert("middleware:handler-one-var", len(hVars) == 1)
+	}
+	verifAssert("middleware:pattern-reported-is-the-registered-one", mwPattern == patterns[pi])
+	verifCheckCapture("middleware:seen-by-middleware:", mwVars, "x", v)
+}
